@@ -260,6 +260,7 @@ func (h *HopByHopHeader) UnmarshalBinary(data []byte) error {
 		return errors.New("The []byte is too short to unmarshal a full HopByHopHeader message.")
 	}
 	n += 1
+	h.Options = nil // a used value must not keep the options of an earlier header
 	for n < int(h.Len()) {
 		o := new(Option)
 		err := o.UnmarshalBinary(data[n:])
